@@ -47,7 +47,7 @@ from run import gen as G, stage
 WORKERS = int(os.environ.get("VERIF_WORKERS") or 16)
 PROCS = int(os.environ.get("VERIF_PROCS") or 14)
 QUIET = ["--no-junit", "--no-summary"]      # other properties' report writers stay out of these runs
-DEFAULT_FORMATS = ["json", "plain", "progress2", "progress3", "rerun"]
+DEFAULT_FORMATS = ["json", "plain", "progress", "progress2", "progress3", "rerun"]
 ALL_FORMATS = ["json", "json.pretty", "plain", "pretty", "progress", "progress2", "progress3", "rerun", "steps"]
 SWITCHES = [[], ["--no-timings"], ["--no-multiline"], ["--no-color"], ["--color=always"], ["--no-timings", "--no-multiline", "--color=always"]]
 KIND2OUTCOME = {"pass": "pass", "fail": "fail", "undef": "undefined", "bad": "badarg", "skip": "skip"}
@@ -119,6 +119,10 @@ def job_class(job):
 def must_keep(job):
     """guaranteed class of the reports pass: the tiny programs of family `cleanup` with a raising cleanup registered on the
     feature / rule / testrun layer -- the container's status changes when its context layer is popped, i.e. around eof"""
+    if job["prog"].get("family") == "capdeco":
+        # ... and the small all-passing program with EVERY single hook invocation as fault: a scenario's mark / status in
+        # every report is its final one (a hook or cleanup after the last step may still turn it into an error)
+        return True
     return job["prog"].get("family") == "cleanup" and any(
         st["cl_id"] and st["cl_raises"] and st["cl_layer"] in ("feature", "rule", "testrun")
         for e in job["flat"]["elems"] for st in e["steps"])
@@ -164,7 +168,7 @@ def plan_jobs(chk, quota, rnd):
     if total > quota * 8:       # the guaranteed class survives the pre-sample
         extra = set()
         for tid, (p, cfgs, faults) in enumerate(pl):
-            if p.get("family") == "cleanup":
+            if p.get("family") in ("cleanup", "capdeco"):
                 extra.update(range(offs[tid], offs[tid] + len(cfgs) * len(faults)))
         picks = sorted(set(picks) | extra)
     flats = {}
@@ -357,11 +361,15 @@ TABLES = [
     # source text of cells that rendering has to escape: an escaped pipe (the cell holds a pipe), backslashes, backslash + n
     {"headings": ["a\\|b", "c\\d"], "rows": [["e\\|f", "g\\h"], ["plain", "y\\nz"]]},
     {"headings": ["p", "q\\|r"], "rows": [["\\|", "\\\\"]]},
+    # a table that consists of its heading row only (no data rows: still a table of the step)
+    {"headings": ["name", "value"], "rows": []},
+    {"headings": ["lonely"], "rows": []},
 ]
 # for outline steps: <h1> / <h2> are extra Examples columns; rows alternate (c, c) -- the headings coincide -- and (c, d)
 OUTLINE_TABLES = [
     {"headings": ["<h1>", "<h2>", "z"], "rows": [["p1", "p2", "p3"], ["<h1>!", "q2", "q3"]]},
     {"headings": ["z", "<h2>", "<h1>"], "rows": [["s1", "s2", "s3"]]},
+    {"headings": ["<h1>", "z"], "rows": []},
     {"headings": ["<h1>\\|x", "w"], "rows": [["t\\u", "<h2>\\|<h1>"]]},
 ]
 TEXTS = [["one line"], ["line 1", "line 2"], ["first", "", "third"]]
